@@ -10,6 +10,8 @@ import Uft.Model.Net
         client = <segpattern> <msg> <msg> …     (socket id = position + 1)
         -> "status=<ok|fatal> | <len>:<fnv> … | <tree>"
    local <msg> …                       -> "<files>"   (local recording of the same buffers)
+   perflabels <fixed 0|1> <cpu>:<0|1> …  per-cpu perf files in glob order (1 = has data) -> the numbers
+                                       `uftrace dump` prints in its "reading perf-cpuN.dat" lines, or -
 
    sched   = comma list of w<n> | i (EINTR) | e (error), or -
    bytes   = hex | - (empty) | G<seed>.<len> (generated)
@@ -192,6 +194,18 @@ def handle (ws : List String) : String :=
   | [["enc", m]] =>
     match parseItem m with
     | some it => let b := itemBytes it; s!"{digest b} {hexOfBytes (b.take 64)}"
+    | none => "bad-op"
+  | ["perflabels" :: fx :: fs] =>
+    let files := if fs = ["-"] then some [] else parseAll (fun (w : String) =>
+      match w.splitOn ":" with
+      | [a, b] => match a.toNat?, b.toNat? with
+        | some c, some h => some (c, h != 0)
+        | _, _ => none
+      | _ => none) fs
+    match files with
+    | some files =>
+      let l := dumpLabels (fx == "1") files
+      if l.isEmpty then "-" else " ".intercalate (l.map toString)
     | none => "bad-op"
   | ["local" :: msgs] =>
     match parseAll parseItem msgs with
